@@ -197,10 +197,10 @@ func builtinObjectAssign(call FunctionCall) Value {
 	}
 
 	target := call.ArgumentList[0]
-	targetObj := target.object()
-	if !target.IsObject() && target.IsNull() && target.IsUndefined() {
+	if target.IsNull() || target.IsUndefined() {
 		panic(call.runtime.panicTypeError("Object.assign TypeError: Cannot convert undefined or null to object"))
 	}
+	targetObj := call.toObject(target)
 
 	for _, source := range call.ArgumentList[1:] {
 		if source.IsString() {
